@@ -2,12 +2,14 @@ import Casket.Model.Dispenser
 import Casket.Model.Parser
 import Casket.Model.ExecSetup
 import Casket.Spec.Dispenser
+import Casket.Spec.HtCacheLock
 import Driver.Proto
 /-
 Streams of C11.
   c11.disp   tokens  ops     tokens = comma list file:line:texthex; ops = string over n a l b B r 2 v i f N
              out = per-op results joined by ";" then "|" Val ":" Line ":" Nesting
   c11.setup  directive confighex    out = total | PANIC:… | TIMEOUT:… | DISAGREE:…   (search; the model's answer is "total")
+  c11.reload directive confighex ops   the same configuration loaded several times while its files change; out as c11.setup (search)
 -/
 namespace Driver.C11
 open Casket.Lexer Casket.Dispenser
@@ -107,10 +109,65 @@ def execJudge (f : List String) (out : String) : String :=
     | _, _ => "bad:unparsable:" ++ out
   | _, _ => "bad:unparsable:" ++ out
 
+/-! c11.htcache  basicauth ops   ops = comma list g<f><u> | A<f> B<f> M<f> R<f> D<f> T<f>;  out = outcomes of the calls, comma separated -/
+
+open Casket.HtCacheLock in
+def parseHtOp (t : String) : Option Casket.HtCacheLock.Op :=
+  match t.toList with
+  | [k, f] =>
+    (if f == '0' then some 0 else if f == '1' then some 1 else none).bind fun (fi : Nat) =>
+      match k with
+      | 'A' => some (.write fi (.users [1]))
+      | 'B' => some (.write fi (.users [1, 2]))
+      | 'M' => some (.write fi .malformed)
+      | 'R' => some (.remove fi)
+      | 'D' => some (.mkdir fi)
+      | 'T' => some (.touch fi)
+      | _ => none
+  | ['g', f, u] =>
+    (if f == '0' then some 0 else if f == '1' then some 1 else none).bind fun (fi : Nat) =>
+      (if u == 'b' then some 1 else if u == 'a' then some 2 else if u == 'z' then some 3 else none).map fun (ui : Nat) =>
+        Casket.HtCacheLock.Op.get fi ui
+  | _ => none
+
+def parseHtOps (s : String) : Option (List Casket.HtCacheLock.Op) :=
+  if s = "" then some [] else (s.splitOn ",").mapM parseHtOp
+
+open Casket.HtCacheLock in
+def showRes : Res → String
+  | .ok => "ok" | .eopen => "eopen" | .eparse => "eparse" | .enouser => "enouser" | .hang => "hang"
+
+open Casket.HtCacheLock in
+def parseRes (s : String) : Option Res :=
+  if s == "ok" then some .ok else if s == "eopen" then some .eopen else if s == "eparse" then some .eparse
+  else if s == "enouser" then some .enouser else none
+
+open Casket.HtCacheLock in
+def htModel : List String → String
+  | [_, ops] =>
+    match parseHtOps ops with
+    | none => "bad-case"
+    | some os => ",".intercalate ((Casket.HtCacheLock.run os Casket.HtCacheLock.init).map showRes)
+  | _ => "bad-case"
+
+/-- the property on the observed outcomes: a watchdog hit is a call that hangs; otherwise `Spec.verdict` -/
+def htJudge (f : List String) (out : String) : String :=
+  if out == "SKIPPED" then "ok"   -- not evaluated: the directive had already hung twice in this run
+  else if out.startsWith "PANIC" then "bad:panic:GetHtpasswdMatcher panicked"
+  else if out.startsWith "TIMEOUT" then Casket.HtCacheLock.verdict [] [.hang]
+  else match f with
+    | [_, ops] =>
+      match parseHtOps ops, (if out = "" then some [] else (out.splitOn ",").mapM parseRes) with
+      | some os, some rs => Casket.HtCacheLock.verdict os rs
+      | _, _ => "bad:unparsable:" ++ out
+    | _ => "bad:unparsable:" ++ out
+
 def streams : List Driver.Stream := [
   { name := "c11.disp", model := dispModel, judge := dispJudge },
   { name := "c11.setup", model := fun _ => "total", judge := setupJudge },
-  { name := "c11.exec", model := execModel, judge := execJudge }
+  { name := "c11.exec", model := execModel, judge := execJudge },
+  { name := "c11.reload", model := fun _ => "total", judge := setupJudge },
+  { name := "c11.htcache", model := htModel, judge := htJudge }
 ]
 
 end Driver.C11
